@@ -1,8 +1,10 @@
 mod conf;
+mod crash;
 mod ctl;
 mod elines;
 mod elines2;
 mod gram;
+mod hist;
 mod tags;
 mod eproj;
 mod model;
@@ -70,6 +72,7 @@ fn dispatch(prop: &str, tier: &str) -> i32 {
         "C15" => gram::run_c15(tier),
         "C14" => tags::run_c14(tier),
         "C17" => conf::run_c17(tier),
+        "C06" | "C07" | "C08" | "C09" | "C10" => hist::run_property(prop, tier),
         "C02" | "C03" | "C05" => sched::run_property(prop, tier),
         _ => {
             eprintln!("unknown property {prop}");
@@ -86,6 +89,7 @@ fn dispatch_replay(prop: &str, v: &serde_json::Value) -> bool {
         "U-gram" => gram::replay(v),
         "U-tag" => tags::replay(v),
         "E-conf" => conf::replay(v),
+        "H" => hist::replay(v),
         e => {
             eprintln!("unknown engine {e:?} in replay file");
             std::process::exit(2);
